@@ -169,6 +169,7 @@ type Exec struct {
 	chanScale int
 	tracked   map[string]Value
 	violation *Violation
+	curSite   *ssa.Call
 	unknowns  int
 	cfg       map[string]int64
 }
@@ -840,6 +841,12 @@ func (ex *Exec) exec(th *Thread, fr *Frame, in ssa.Instruction) {
 		p := ex.get(fr, x.X).(Ptr)
 		if p.isNil() {
 			ex.runtimePanic(th, "invalid memory address or nil pointer dereference")
+			return
+		}
+		if p.abs != nil {
+			st := p.abs.elemT.Underlying().(*types.Struct)
+			ex.set(fr, x, Ptr{abs: &absSlice{length: p.abs.length, capa: p.abs.capa, elemT: st.Field(x.Field).Type()}, absIdx: p.absIdx})
+			fr.pc++
 			return
 		}
 		if p.slot == nil {
